@@ -11,3 +11,17 @@ fn vw_found(desc: String) -> ! {
 fn vw_none(cases: usize) {
     println!("{}//{} cases={}", "VERIF-WITNESS", "NONE", cases);
 }
+
+// multi-finding mode: report every failing case, keep going, fail at the end
+thread_local! { static VW_FOUND: std::cell::Cell<usize> = std::cell::Cell::new(0); }
+#[allow(dead_code)]
+fn vw_report(desc: String) {
+    println!("{}//{} {}", "VERIF-WITNESS", "FOUND", desc);
+    VW_FOUND.with(|c| c.set(c.get() + 1));
+}
+#[allow(dead_code)]
+fn vw_finish(cases: usize) {
+    let n = VW_FOUND.with(|c| c.get());
+    if n > 0 { panic!("witness found ({n} failing cases of {cases})"); }
+    vw_none(cases);
+}
